@@ -227,7 +227,7 @@ PROPS = {
         vfiles=["Props/C04"],
         technique="Coq proof: the COBS decoder model (crate automaton with bounded destination) only outputs bytes, the length guards discharge every checked index, accepted frames satisfy wf_frame; CAN side via the arithmetic layout theorem; correspondence on malformed byte strings and all driver frame shapes",
         level_text="Theorems C04_usart_total (every byte string of any length: value or error, never a panic; accepted frames are well-formed), C04_can_total (every driver-"
-                   "constructible CAN frame), C04_reencode (a well-formed frame re-encodes for both links and enters reassembly without a panic), C04_checker_accepts_model(_can) (the extracted checkers provably accept the model's observations).",
+                   "constructible CAN frame), C04_reencode (a well-formed frame re-encodes for both links and enters reassembly without a panic; the stream also builds a small packet completed around every accepted frame), C04_checker_accepts_model(_can) (the extracted checkers provably accept the model's observations).",
         level_note=NOTE_COMMON + " The cobs crate is modelled by hand (Model/Cobs.v) and exercised through the codec by the streams.",
         streams=[dict(USD, view="view_C04_USD", ok="ok_C04_USD"), dict(CAD, view="view_C04_CAD", ok="ok_C04_CAD")],
         rule=RULE_USD + "; " + RULE_CAD,
